@@ -28,12 +28,27 @@ theorem init_order_bridge : initStages = canonicalStages := by decide
 /-- `add_key` / `_add_key` contain no mutating backend call. -/
 theorem addkey_leaves_backend : addKeyUploads = false := by decide
 
+/-- `_make_key` would also read `encryption.mac` and `encryption.shared_kdf` (and never checks them: the MAC and the shared
+KDF are not run by `init`).  The schema of `_validate_init_settings` makes them unreachable, which is why the model's key
+generation uses the class defaults; widening the schema in `/repo` breaks this theorem. -/
+theorem validated_settings_have_no_hidden_key_options (s : Settings) (h : validateInit s = .ok ())
+    (enc : List (String × V2)) (he : encryptionSettings s = .ok (some enc)) :
+    enc.lookup "mac" = none ∧ enc.lookup "shared_kdf" = none := by
+  constructor
+  · cases hk : enc.lookup "mac" with
+    | none => rfl
+    | some v =>
+      obtain ⟨q, hq, hqk⟩ := validated_encryption_keys s h enc he "mac" v hk
+      simp [initEncryptionSchema] at hq
+      rcases hq with rfl | rfl <;> simp at hqk
+  · cases hk : enc.lookup "shared_kdf" with
+    | none => rfl
+    | some v =>
+      obtain ⟨q, hq, hqk⟩ := validated_encryption_keys s h enc he "shared_kdf" v hk
+      simp [initEncryptionSchema] at hq
+      rcases hq with rfl | rfl <;> simp at hqk
+
 /-! ## rejected settings leave the backend untouched -/
-
-private theorem canonical_split :
-    canonicalStages = (canonicalStages.take 9) ++ [(InitStage.uploadConfig, false)] := by decide
-
-private theorem canonical_pre_noUpload : noUpload (canonicalStages.take 9) := by decide
 
 /-- **Every rejection precedes the config upload.**  Whatever the settings and whether or not a password is given: if `init`
 raises, nothing has been uploaded. -/
@@ -42,7 +57,7 @@ theorem reject_leaves_backend (s : Option Settings) (pw : Bool) (h : accept s pw
   unfold accept at h
   unfold runInit at h ⊢
   rw [init_order_bridge, canonical_split] at h ⊢
-  cases he : (runStages s pw (canonicalStages.take 9 ++ [(InitStage.uploadConfig, false)]) {}).2 with
+  cases he : (runStages s pw (canonicalStages.take 7 ++ [(InitStage.uploadConfig, false)]) {}).2 with
   | none => simp [he] at h
   | some e => exact reject_before_upload s pw _ canonical_pre_noUpload false {} e he
 
@@ -52,7 +67,7 @@ theorem accept_uploads_config_once (s : Option Settings) (pw : Bool) (h : accept
   unfold accept at h
   unfold runInit at h ⊢
   rw [init_order_bridge, canonical_split] at h ⊢
-  have hn : (runStages s pw (canonicalStages.take 9 ++ [(InitStage.uploadConfig, false)]) {}).2 = none := by
+  have hn : (runStages s pw (canonicalStages.take 7 ++ [(InitStage.uploadConfig, false)]) {}).2 = none := by
     simpa using h
   simpa using accept_uploads s pw _ canonical_pre_noUpload {} hn
 
@@ -172,48 +187,6 @@ theorem addkey_accept_implies_kdf_usable (s : Option Settings) (pw shared unlock
   have hku := kdf_usable_of krow kargs _ (fromConfig_mem _ _ _ hfc) hkcon hder
   obtain ⟨hkr, hka⟩ := construct_row_args krow kargs _ hkcon
   rw [hkr, hka]; exact hku
-
-/-- invariant of every key ring built by `init` and add-key: each key file is sealed with the user key derived from its
-own KDF parameters, its own salt and the password it was made for -/
-def RingOk {κ : Type} (r : Ring κ) : Prop :=
-  ∀ kp ∈ r.keys, kp.1.sealedWith = ⟨kp.1.kdf, kp.1.salt, kp.2⟩
-
-private theorem ringOk_init {κ : Type} (pw : Pw) (kdf : κ) : RingOk (initRing pw kdf) := by
-  intro kp hkp
-  simp [initRing] at hkp
-  subst hkp
-  rfl
-
-private theorem ringOk_append {κ : Type} (r : Ring κ) (h : RingOk r) (kdf : κ) (salt : Nat) (pw : Pw) (fam : Nat) (nx : Nat) :
-    RingOk ({ keys := r.keys ++ [(mkKey kdf salt pw fam, pw)], next := nx } : Ring κ) := by
-  intro kp hkp
-  simp only [List.mem_append, List.mem_singleton] at hkp
-  rcases hkp with hkp | hkp
-  · exact h kp hkp
-  · subst hkp; rfl
-
-private theorem ringOk_step {κ : Type} [DecidableEq κ] (valid : κ → Bool) (r : Ring κ) (h : RingOk r) (op : KeyOp κ) :
-    RingOk (stepKey valid r op) := by
-  cases op with
-  | independent pw kdf =>
-    simp only [stepKey]
-    split
-    · exact ringOk_append r h _ _ _ _ _
-    · exact h
-  | shared i upw pw kdf =>
-    simp only [stepKey]
-    repeat' split
-    all_goals first | exact h | exact ringOk_append r h _ _ _ _ _
-  | clone i upw kdf =>
-    simp only [stepKey]
-    repeat' split
-    all_goals first | exact h | exact ringOk_append r h _ _ _ _ _
-
-private theorem ringOk_run {κ : Type} [DecidableEq κ] (valid : κ → Bool) (ops : List (KeyOp κ)) (r : Ring κ) (h : RingOk r) :
-    RingOk (runKeyOps valid r ops) := by
-  induction ops generalizing r with
-  | nil => exact h
-  | cons op ops ih => exact ih _ (ringOk_step valid r h op)
 
 /-- **Every key produced by `init` or by any chain of add-key invocations (independent, shared, clone; any KDF parameters,
 refused ones included; right or wrong unlocking passwords) unlocks with its own password and with no other.** -/
